@@ -130,15 +130,24 @@ Proof.
     apply IH. unfold zlen in *. rewrite app_length. cbn [length]. lia.
 Qed.
 
-(* symmetric_moving_average = the windowed mean, for every wing width up to the array length *)
-Theorem sma_is_windowed_mean a w : 0 <= w <= zlen a -> sma a w = sma_spec a w.
+Lemma psum_sat a k : zlen a <= k -> psum a k = psum a (zlen a).
 Proof.
-  intros [Hw Hn]. unfold sma, sma_spec.
+  intros H. unfold psum, zlen in *. rewrite !firstn_all2 by lia. reflexivity.
+Qed.
+
+(* symmetric_moving_average = the windowed mean, for every array and every wing width >= 0 *)
+Theorem sma_is_windowed_mean a w : 0 <= w -> sma a w = sma_spec a w.
+Proof.
+  intros Hw. unfold sma, sma_spec.
   destruct (w =? 0) eqn:E.
   - assert (w = 0) by lia. subst w. apply (sma_w0 a 0 []). reflexivity.
-  - apply sma_loop_spec; [lia|lia|lia| |lia].
-    replace (Z.min (zlen a) (0 + w)) with w by lia.
-    replace (Z.max 0 (0 - 1 - w)) with 0 by lia. rewrite psum_0. unfold psum. lia.
+  - assert (Hn : 0 <= zlen a) by (unfold zlen; lia).
+    apply sma_loop_spec; [lia|lia|lia| |lia].
+    replace (Z.max 0 (0 - 1 - w)) with 0 by lia. rewrite psum_0.
+    destruct (Z_le_dec w (zlen a)).
+    + replace (Z.min (zlen a) (0 + w)) with w by lia. unfold psum. lia.
+    + replace (Z.min (zlen a) (0 + w)) with (zlen a) by lia.
+      rewrite <- (psum_sat a w) by lia. unfold psum. lia.
 Qed.
 
 (* the window is never empty and lies inside the array: the denominator is positive *)
@@ -153,7 +162,14 @@ Proof. vm_compute. reflexivity. Qed.
 Example sma_example2 : sma [1; 2; 3; 4; 5] 2 = [(6, 3); (10, 4); (15, 5); (14, 4); (12, 3)].
 Proof. vm_compute. reflexivity. Qed.
 
-(* For wing widths beyond the array length the code (count initialised to wing_width although
-   a[:wing_width] has only n elements) does NOT compute the windowed mean. *)
-Theorem sma_wide_wing_refuted : exists a w, 0 <= w /\ sma a w <> sma_spec a w.
+Example sma_example_wide : sma [1; 1] 3 = [(2, 2); (2, 2)].
+Proof. vm_compute. reflexivity. Qed.
+
+(* Documentation of the pinned tree (before /repo commit 19272a6): count was initialised to
+   wing_width although a[:wing_width] has only n elements; that code did NOT compute the windowed
+   mean for wing widths beyond the array length. *)
+Definition sma_pinned (a : list Z) (w : Z) : list (Z * Z) :=
+  if w =? 0 then map (fun x => (x, 1)) a
+  else sma_loop a w (zlen a) a 0 (zsum (firstn (Z.to_nat w) a)) w.
+Theorem sma_pinned_wide_wing_refuted : exists a w, 0 <= w /\ sma_pinned a w <> sma_spec a w.
 Proof. exists [1; 1], 3. split; [lia|]. vm_compute. discriminate. Qed.
